@@ -185,8 +185,28 @@ def match_known(f, case, known):
                 return "C07-K3"
     if "C07-K2" in ids and f["bucket"].startswith("epa-exception/AssertionError") or \
             ("C07-K2" in ids and f["bucket"].startswith("epa-exception-swapped-winding/AssertionError")):
-        def nv(sp):
-            return 8 if sp["kind"] == "box" else len(sp.get("vertices", ()))
-        if nv(case["A"]) + nv(case["B"]) >= 40:
+        if f.get("data", {}).get("simplex") in ("tetra+", "tetra-") and capacity_only(case):
             return "C07-K2"
     return None
+
+
+def capacity_only(case, swapped=None):
+    """The default capacity (max_faces=64, max_loose_edges=32, max_iter=64) is
+    the only obstacle: the same protocol with a generous capacity succeeds on
+    a proper tetrahedron (both windings)."""
+    from distance3d import gjk
+    from distance3d.epa import epa
+    A, B = build(case["A"]), build(case["B"])
+    g = call_lib(gjk.gjk, A, B)
+    if isinstance(g, LibError) or g[0] != 0.0:
+        return False
+    W = np.array(g[3], dtype=float)
+    L = S.truth(case)["L"]
+    if not simplex_class(W, L)[0].startswith("tetra"):
+        return False
+    for rows in ([0, 1, 2, 3], [1, 0, 2, 3]):
+        r = call_lib(epa, np.ascontiguousarray(W[rows]), build(case["A"]), build(case["B"]),
+                     max_iter=4096, max_loose_edges=2048, max_faces=8192)
+        if isinstance(r, LibError) or not r[2] or not finite(r[0]):
+            return False
+    return True
